@@ -82,6 +82,7 @@ func cmdVerify(args []string) {
 		fmt.Fprintln(os.Stderr, err)
 		os.Exit(2)
 	}
+	e.loadBaseLocals(verifRoot)
 	bad := 0
 	for _, key := range strings.Split(*fn, ",") {
 		res := e.VerifyFunc(key, *prop)
